@@ -9,6 +9,7 @@ from ..model import (Expr, In, Ref, Program, Step, OneOf, Opt, OrDisabled, RawYA
 SHAPES = [
     "x", '""', "null", "~", "[]", "{}", "[1, 2]", "{k: v}", "{a: {b: [c, {d: e}]}}", "12", "-1", "1.5e3", "true", "0x1F", ".inf", "'quoted'",
     "&anc x", "*nope", "{<<: {k: v}}", "{[1, 2]: x}", "{? {a: b} : c}", "{1: 2}", "{null: x}", "[[[[[[]]]]]]",
+    '!expr "$"', '!expr "$.input"', '!expr "$.steps"', '!expr "$.steps.a"', '!expr "$.steps.a.outputs"', '!expr "$[\"input\"]"', '!expr "$.nosuch"', '!soft-optional "$"', '!ordisabled "$"',
     "!expr x", "!expr [1]", "!expr {a: b}", '!expr ""', '!expr "0!"', '!expr "$."', '!expr "$.steps"', '!expr "$.input.tag["', '!expr "((("', '!expr "1 +"', '!expr "f(,)"',
     '!expr "$.input.tag.x.y"', '!expr "$.steps.a"', '!expr "$[0]"', '!expr "\\"unterminated"', '!expr "$.input.tag == "', '!expr "!"', '!expr "-"', '!expr "1/0"', '!expr "$..a"',
     "!oneof x", "!oneof {}", "!oneof {discriminator: d}", "!oneof {one_of: {}}", "!oneof {discriminator: d, one_of: x}", '!oneof {discriminator: "", one_of: {}}',
